@@ -39,3 +39,62 @@ def least_element_bound(v) -> bool:
         same = iv.vector(lhs, pts) == iv.vector(rhs, pts)
         return (lhs == rhs) == same
     return False
+
+
+def _release_only(v):
+    from packaging.version import Version
+
+    return Version(f"{v.epoch}!" + ".".join(map(str, v.release)))
+
+
+def _f8_ranges(value):
+    """Ranges rendered through the `~=` shortcut although their exclusive upper bound is a
+    post-release (the shortcut then silently drops [release, release.postN))."""
+    out = []
+    for r in iv.ranges_of(value):
+        try:
+            text = str(r)
+        except Exception:  # noqa: BLE001
+            continue
+        if (r.max is not None and r.max.post is not None and not r.include_max
+                and getattr(r, "simplified", None) is None and text.startswith("~=")):
+            out.append(r)
+    return out
+
+
+@predicate
+def post_release_bound_shortening(v) -> bool:
+    """F8: RangeSpecifier renders [lo, X.postN) as `~=lo` (pinned by test_range_str_normalization),
+    which drops [X, X.postN).  Explained iff such a range is present AND the mismatch vanishes
+    when that range is read with its upper bound replaced by the release-only version."""
+    import dep_logic.specifiers as S
+    from packaging.version import Version
+
+    live = v.get("_live") or {}
+    value = live.get("value", live.get("spec"))
+    if value is None or not iv.readable(value):
+        return False
+    bad = _f8_ranges(value)
+    if not bad:
+        return False
+    d = v["detail"]
+    if v["property"] == "C04":
+        # membership: structurally admitted, really rejected, and the candidate lies in the dropped slice
+        ver = Version(d["version"])
+        if not (d["expected"] is True and d["got"] is False and iv.mem(value, ver)):
+            return False
+        return any(_release_only(r.max) <= ver < r.max for r in bad)
+    if v["property"] == "C06":
+        back = live.get("back")
+        if back is None or not iv.readable(back):
+            return False
+        # the re-parsed value must be exactly the original with the shortened bound(s)
+        def shorten(r):
+            if any(r is b for b in bad):
+                return S.RangeSpecifier(min=r.min, max=_release_only(r.max), include_min=r.include_min, include_max=False)
+            return r
+        rs = [shorten(r) for r in iv.ranges_of(value)]
+        pts = iv.points(back, *rs)
+        exp = tuple(any(iv.mem_range(r, p) for r in rs) for p in pts)
+        return iv.vector(back, pts) == exp
+    return False
